@@ -26,6 +26,9 @@ RULES = {
     "path+h": {"unit_path": "beta.py", "method_list": ["h", "f"]},
     "attrs+f": {"attrs": ["no_such_attribute"], "method_list": ["f"]},
     "file2:h": {"method_list": ["h"], "_file": "python-entry.yaml"},
+    # rules without a method list: every method of the units they match (round 3)
+    "name:beta*": {"unit_name": "beta.py"},
+    "java*": {"lang": "java"},
 }
 
 
